@@ -65,6 +65,13 @@ var vC03Programs = []string{
 	`(defn apply1 [g] (g)) (defn inner [v] (apply1 (fn [] v))) (defn outer [v] (inner 9002)) (outer 9001)`,
 	// 17 function defined in let refers to let variable after let exits
 	`(def g (let [x 9001] (fn [y] (+ x y)))) (let [x 9002] (g 9003))`,
+	// closures created inside the *arguments* of calls (compiled when the call runs, not with the body): each activation
+	// of a self-recursive function - in and out of tail position - still gets its own variables
+	`(defn mk [n acc] (cond (== n 0) acc (mk (- n 1) (append acc (fn [] (+ n 9001)))))) (def fs (mk 3 [])) (+ ((aget fs 0)) (+ (* 10 ((aget fs 1))) (* 100 ((aget fs 2)))))`,
+	`(defn mk [n acc] (let [m (* n 2)] (cond (== n 0) acc (mk (- n 1) (append acc (fn [] (+ m 9001))))))) (def fs (mk 3 [])) (+ ((aget fs 0)) (+ (* 10 ((aget fs 1))) (* 100 ((aget fs 2)))))`,
+	`(defn keep [g] g) (defn mk [n acc] (cond (== n 0) acc (mk (- n 1) (append acc (keep (fn [] (set n (+ n 9001)) n)))))) (def fs (mk 2 [])) (+ ((aget fs 0)) (+ ((aget fs 0)) (* 1000 ((aget fs 1)))))`,
+	`(defn mk [n acc] (cond (== n 0) acc (append (mk (- n 1) acc) (fn [] (+ n 9001))))) (def fs (mk 3 [])) (+ ((aget fs 0)) (+ (* 10 ((aget fs 1))) (* 100 ((aget fs 2)))))`,
+	`(def fs []) (defn walk [n] (cond (== n 0) 0 (begin (set fs (append fs (list (fn [] n) (fn [] (set n (+ n 9001)))))) (walk (- n 1))))) (walk 2) ((first (rest (aget fs 0)))) (+ ((first (aget fs 0))) (* 100 ((first (aget fs 1)))))`,
 }
 
 func vC03Builtins(ev *vrEval) {}
